@@ -147,7 +147,7 @@ fn gen_route(rng: &mut StdRng) -> String {
     match rng.gen_range(0..9) {
         0 => String::new(),
         1 => "/".into(),
-        2 => "r".repeat(rng.gen_range(1_000..70_000)),
+        2 => "r".repeat(if super::miri() { 300 } else { rng.gen_range(1_000..70_000) }),
         3 => "/путь/日本/🦀".into(),
         4 => "/nul\0inside".into(),
         _ => format!("/svc.{}/M{}", rng.gen::<u16>(), rng.gen::<u8>()),
@@ -207,8 +207,8 @@ pub fn scenario(idx: usize, seed: u64, msgs: usize) -> ScenarioResult {
         let body_len = match rng.gen_range(0..12) {
             0 => 0,
             1..=6 => rng.gen_range(1..300),
-            7..=9 => rng.gen_range(300..70_000),
-            10 => rng.gen_range(70_000..2_000_000),
+            7..=9 if !super::miri() => rng.gen_range(300..70_000),
+            10 if !super::miri() => rng.gen_range(70_000..2_000_000),
             _ => 1,
         };
         let body = gen_bytes(seed ^ m as u64, body_len);
@@ -289,7 +289,9 @@ pub fn scenario(idx: usize, seed: u64, msgs: usize) -> ScenarioResult {
             bump(&mut counters, "round_trips", 1);
         }
         // ---- totality: strict prefixes (all of them for small messages, a seeded sample otherwise)
-        let cuts: Vec<usize> = if bytes.len() <= 600 {
+        let cuts: Vec<usize> = if super::miri() {
+            (0..bytes.len()).step_by(bytes.len() / 12 + 1).collect()
+        } else if bytes.len() <= 600 {
             (0..bytes.len()).collect()
         } else {
             let mut c: Vec<usize> = (0..40).collect();
@@ -331,7 +333,7 @@ pub fn scenario(idx: usize, seed: u64, msgs: usize) -> ScenarioResult {
         }
         if !is_req {
             // unknown status codes
-            for _ in 0..8 {
+            for _ in 0..(if super::miri() { 1 } else { 8 }) {
                 let st: u16 = loop {
                     let s: u16 = rng.gen();
                     if !refwire::VALID_STATUS.contains(&s) {
@@ -348,7 +350,7 @@ pub fn scenario(idx: usize, seed: u64, msgs: usize) -> ScenarioResult {
             }
         }
         // ---- mutated / arbitrary bytes: no panic, and Ok only if the reference parser agrees
-        for t in 0..12 {
+        for t in 0..(if super::miri() { 3 } else { 12 }) {
             let mut b = if t < 9 { bytes[..bytes.len().min(4_000)].to_vec() } else { (0..rng.gen_range(0..400)).map(|_| rng.gen()).collect::<Vec<u8>>() };
             if t < 9 && !b.is_empty() {
                 if bytes.len() > 4_000 {
@@ -526,13 +528,13 @@ pub fn run(ctx: &Ctx) -> i32 {
         property: "C07",
         tier,
         seed: ctx.seed,
-        scenarios: 1 + tier.pick(160, 8_000),
+        scenarios: if super::miri() { 2 } else { 1 + tier.pick(160, 8_000) },
         threads: super::threads(),
         watchdog: Duration::from_secs(300),
         budget: Duration::from_secs(tier.pick(100, 900)),
         only: ctx.only,
     };
-    let msgs = tier.pick(60, 120);
+    let msgs = if super::miri() { 2 } else { tier.pick(60, 120) };
     let mut summary = runner::run_scenarios(&cfg, move |i, s| if i == 0 { golden_scenario() } else { scenario(i, s, msgs) });
     // signatures were passed through counters
     let sig_keys: Vec<String> = summary.counters.keys().filter(|k| k.starts_with("sig:")).cloned().collect();
